@@ -28,8 +28,13 @@ def history_case(case):
             n = len(ph['chain_lens'])
             # the CA indexes these lists by the number of certificates issued so far for this identifier set
             cum_chain = (cum_chain if pi else []) + ph['chain_lens']
-            cum_life = (cum_life if pi else []) + [100] * (n - 1) + [LONG]
-            ca.set_plan({'default': {'chain_lens': cum_chain, 'lifetimes_s': cum_life, 'pem_styles': case.get('pem_styles')}})
+            # short lifetimes going down (each certificate expires before the one it replaces), the last one long
+            cum_life = (cum_life if pi else []) + [400 - 60 * k for k in range(n - 1)] + [LONG]
+            faults = []
+            if ph.get('bad_first_download'):
+                # the first answer of one certificate download is not a chain: the attempt must fail and the retry store the right body
+                faults = [{'kind': 'cert', 'action': 'cert_body', 'body': ph['bad_first_download'], 'max_fires': 1, 'id': 'bad-first-download'}]
+            ca.set_plan({'default': {'chain_lens': cum_chain, 'lifetimes_s': cum_life, 'pem_styles': case.get('pem_styles')}, 'faults': faults})
             cfg = S.std_config(d, ca, [{'name': 'c0', 'identifiers': S.ids('h.example.org'), 'key_type': ph['key_type'],
                                         'file_name_format': '{{ name }}.{{ file_type }}.{{ ext }}',
                                         'kp_reuse': ph.get('kp_reuse', False)}],
@@ -56,7 +61,8 @@ def history_case(case):
 
             def done():
                 po = [h for h in C.read_jsonl(d + '/hooks.log')[mark:] if C.hook_event(h) == 'post-operation']
-                return len(po) >= n or not dm.alive()
+                ok_ = [h for h in po if h['kv'].get('is_success') == 'true']
+                return len(ok_) >= n or len(po) >= n + 3 or not dm.alive()
             ok = C.wait_for(done, 40 + 5 * n, step=0.05)
             import time
             time.sleep(0.1)
@@ -73,12 +79,16 @@ def history_case(case):
                     res.setdefault('styles', set()).add(ex['issued'].get('pem_style'))
                     orders[ex['order']] = {'body_sha': ex['issued']['body_sha'], 'body_len': ex['issued']['body_len'],
                                            'csr_spki': ex['csr']['spki_sha256'], 'chain_len': ex['issued']['chain_len']}
-            served_seq = [(r['extra']['order']) for r in log if r.get('kind') == 'cert' and r.get('status') == 200]
+            served_ok = [r for r in log if r.get('kind') == 'cert' and r.get('status') == 200 and not r.get('fault')]
             po = [h for h in hooks if C.hook_event(h) == 'post-operation']
             for k, p in enumerate(po):
-                if p['kv'].get('is_success') != 'true' or k >= len(served_seq):
+                if p['kv'].get('is_success') != 'true':
                     continue
-                o = orders.get(served_seq[k])
+                # the chain this attempt obtained: the last undamaged download answered before the report
+                mine = [r for r in served_ok if r['t_recv'] < p['t_start']]
+                if not mine:
+                    continue
+                o = orders.get(mine[-1]['extra']['order'])
                 if not o:
                     continue
                 res['successes'] += 1
@@ -199,8 +209,10 @@ def run(tier):
                            'chain_lens': [r.randint(1, 4) for _ in range(r.randint(2, 4))],
                            'contacts': list(contacts), 'acc_key': acc_key, 'kp_reuse': bool(p and i % 3 == 1),
                            'corrupt_key': bool(p and i % 3 == 1 and i % 2)})
-            if phases[-1]['kp_reuse'] and len(phases) > 1:
-                phases[-1]['key_type'] = phases[-2]['key_type']      # reuse only makes sense with the same key type
+            if phases[-1]['kp_reuse'] and len(phases) > 1 and i % 4 != 1:
+                phases[-1]['key_type'] = phases[-2]['key_type']      # usually the same key type; otherwise a loadable key of another type is reused
+            if p and i % 5 == 3:
+                phases[-1]['bad_first_download'] = r.choice(['truncated', 'garbage', 'html', 'truncated-tail'])
         styles = ['canonical', 'blank-lines', 'crlf', 'no-final-newline', 'text-around', 'wrap76']
         r.shuffle(styles)
         cases.append({'i': i, 'phases': phases, 'pem_styles': styles if i % 2 else ['canonical']})
